@@ -2,8 +2,8 @@
 import vlib
 from checks import tracker_common as tc
 MANIFEST = dict(level="model_checking", design="4 (C13)",
-    technique="TLA+ spec (Visual.tla gallery + Tracker.tla history rings): coded gallery update checked by TLC to lie inside the declarative C13 relation on every generated step, bounds as invariants; exhaustive quality/feature sequences replayed into the real trackers",
-    text="Visual.tla keeps per track the gallery (newest first), the collected count and the feature / box history rings; TLC checks on every state of the generation instances that collected <= max observations, only features are stored behind the newest entry, ring lengths = min(track length, history length), and on every update that the coded gallery transition is inside the declarative C13 relation (newest kept and gated by the collect thresholds, nothing invented, lowest quality evicted first, no more evictions than needed). Exhaustive sequences of continuations over quality {below, between, above the thresholds} x feature present / absent for max observations 1..3 and history lengths 1..3 (lifetimes 5; thorough 6 and 300-update simulations with max observations to 8, history to 10) are replayed into VisualSort / BatchVisualSort and the stored galleries (symbol, quality, order), collected counts, box / feature histories and the wasted-track conversions are compared; the box histories of Sort / BatchSort come from the R1 lifecycle behaviours.",
+    technique="TLA+ specs (Visual.tla gallery + Tracker.tla history rings; VisualTrace.tla for recorded runs): coded gallery update checked by TLC to lie inside the declarative C13 relation on every generated step, bounds as invariants; exhaustive quality/feature sequences replayed into the real trackers",
+    text="Visual.tla keeps per track the gallery (newest first), the collected count and the feature / box history rings; TLC checks on every state of the generation instances that collected <= max observations, only features are stored behind the newest entry, ring lengths = min(track length, history length), and on every update that the coded gallery transition is inside the declarative C13 relation (newest kept and gated by the collect thresholds, nothing invented, lowest quality evicted first, no more evictions than needed). Exhaustive sequences of continuations over quality {below, between, above the thresholds} x feature present / absent for max observations 1..3 and history lengths 1..3 (lifetimes 5; thorough 6 and 300-update simulations with max observations to 8, history to 10) are replayed into VisualSort / BatchVisualSort and the stored galleries (symbol, quality, order), collected counts, box / feature histories and the wasted-track conversions are compared; the box histories of Sort / BatchSort come from the R1 lifecycle behaviours. Free world (R2): recorded runs of the real VisualSort / BatchVisualSort over random look-alike objects with long lives (max observations 1..8, qualities that differ by less than a hundredth included) are validated by TLC against spec/tracker/VisualTrace.tla: the gallery after every call is an admissible successor of the gallery before it (same declarative relation), the reported count equals the stored count, and nothing touches a gallery between two calls of its scene.",
     note="Qualities are distinct between different feature symbols (ties in quality would make the evicted entry arbitrary).")
 LEVEL = MANIFEST["level"]
 RULE = ("behaviours = all sequences of single-detection predict calls of the stated length over (feature symbol or none) x quality, "
@@ -48,8 +48,28 @@ def run(chk):
         r, c = tc.generate(chk, name, **kw)
         for kind in (("sort",) if quick else ("sort", "batchsort", "visual")):
             tc.replay(chk, name, r, c, kind, 2, "C13", "nt_C13")
+    # free world (R2): random look-alike objects with long lives; TLC re-derives the admissible galleries of every call from
+    # the logged ones (spec/tracker/VisualTrace.tla: GalleryAllowed, reported count = stored count, nothing touches a
+    # gallery between two calls)
+    from checks import r2_common as r2
+    combos = [("visual", 1, 1), ("batchvisual", 2, 1), ("visual", 3, 2), ("visual", 5, 3), ("batchvisual", 4, 2), ("visual", 8, 2)]
+    traces = []
+    for i in range(len(combos) if quick else 60):
+        kind, mo, mtl = combos[i % len(combos)]
+        traces.append(r2.record_visual(chk, f"r2v-gal-{i}", kind, chk.seed * 1000 + 900 + i, vis_kind=("euclid", "cosine")[i % 2], min_votes=1,
+                                       min_track_len=mtl, max_obs=mo, own=(0.0, 0.0, 0.5)[i % 3], metric=("iou", "maha")[(i // 2) % 2],
+                                       max_idle=4, objects=4, spread=(120, 160)[i % 2], steps=200 if quick else 400, shards=1 + i % 3,
+                                       extra=["--no-lifecycle", "1"]))
+    tot = r2.validate_visual(chk, traces, "C13")
+    chk.cov["distinct_nontrivial"] += tot[4] + tot[5]
+    chk.cov["free_world_galleries"] = {"continuations_of_a_full_gallery": tot[4], "features_refused_by_the_collect_gate": tot[5]}
+    chk.witness("free_world_traces_contain_evictions", tot[4] > 0)
+    chk.witness("free_world_traces_contain_refused_features", tot[5] > 0)
     chk.finish(RULE, exhaustive=True)
 
 
 def replay(payload):
+    if payload.get("engine") == "r2v-trace":
+        from checks import r2_common as r2
+        return r2.replay_visual_trace("C13", payload)
     return tc.replay_payload("C13", payload)
